@@ -618,14 +618,49 @@ class _Task:
 
 
 class _HookLock:
+    """Stand-in for SFTPFile._prefetch_lock in the deterministic session: a park point for its two users in the
+    source (_async_response, _prefetch_thread), and an owner-tracking lock for everybody: asking for it while
+    holding it is a self-deadlock on the real (non-re-entrant) threading.Lock, reported as the structural Hang."""
+
     def __init__(self, sess):
         self.sess = sess
+        self.owner = None
 
     def __enter__(self):
-        self.sess._on_lock_enter()
+        me = threading.get_ident()
+        if self.owner == me:
+            raise Hang("self-deadlock: _prefetch_lock is acquired again by the thread that holds it (in %s)"
+                       % sys._getframe(1).f_code.co_name)
+        if sys._getframe(1).f_code.co_name in ("_async_response", "_prefetch_thread"):
+            self.sess._on_lock_enter()
+        self.owner = me
         return self
 
     def __exit__(self, *a):
+        self.owner = None
+        return False
+
+
+class OwnerLock:
+    """A real lock that knows its owner (for free-running sessions): re-acquisition by the owner — which would
+    block for ever on the plain threading.Lock it replaces — raises the structural Hang instead."""
+
+    def __init__(self):
+        self._l = threading.Lock()
+        self.owner = None
+
+    def __enter__(self):
+        me = threading.get_ident()
+        if self.owner == me:
+            raise Hang("self-deadlock: _prefetch_lock is acquired again by the thread that holds it (in %s)"
+                       % sys._getframe(1).f_code.co_name)
+        self._l.acquire()
+        self.owner = me
+        return self
+
+    def __exit__(self, *a):
+        self.owner = None
+        self._l.release()
         return False
 
 
